@@ -46,6 +46,7 @@ type mlRun struct {
 	flags  []finding
 	abort  bool
 	maxCS  int
+	waited bool // some Lock call had to wait for a holder
 }
 
 func (m *mlRun) yield(p string) {
@@ -75,6 +76,9 @@ func (m *mlRun) worker(wi int, rounds []mlRound) func() {
 				}
 				if m.abort {
 					return
+				}
+				if held && m.clock != t0 {
+					m.waited = true
 				}
 				if !held && m.clock != t0 {
 					m.flag("memlock|blocked-without-holder", fmt.Sprintf("worker %d: Lock(%s) blocked although nobody held %s", wi, k, k))
@@ -130,14 +134,7 @@ func runMemlock(e *ev.Env, w *witnesses) {
 			for _, ev := range out.Released {
 				w.bounds[ev.Point]++
 			}
-			// a schedule in which some Lock had to wait: fewer options than unfinished workers
-			waited := false
-			for _, o := range out.Options {
-				if o < len(ms.Workers) {
-					waited = true
-				}
-			}
-			if waited {
+			if m.waited {
 				blockedSeen++
 				e.Nontrivial("memlock", ms.Name, out.Key())
 			}
